@@ -627,3 +627,5 @@ PROPS["C02"]["rule"] += " In a third of the cases the facts are written in Go-ty
 PROPS["C14"]["rule"] += " A 'cyclic' family returns (or hands to Env.AddFact) a value that refers to itself: the call must come back and the process survive."
 PROPS["C16"]["rule"] += (" In a third of the in-memory cases the cron's context logs and its LogHook sleeps 1-300 ms (virtual) where the firing "
                          "goroutine re-schedules a recurring job, so that harness operations fall into that moment.")
+PROPS["C17"]["rule"] += (" The concurrent part also runs with a 1 ms TTL (entries expire between and during requests): every client writes "
+                         "1-5 facts and reads each one back as soon as the write is acknowledged; the read must find it.")
